@@ -354,8 +354,15 @@ class Ctx:
 
     # -- common steps -------------------------------------------------------------------
     def lean_stage(self, props_files, translators=()):
-        """regenerate Generated/, build, scan, audit.  Fills obligations; records broken proofs."""
+        """regenerate Generated/, build, scan, audit.  Fills obligations; records broken proofs.
+        ALL translators run on every check (the lake build covers the whole library, so every generated file must
+        reflect the current /repo), the property-specific ones passed in are run in addition."""
+        from . import translators as _tr
+        allt = list(_tr.ALL)
         for t in translators:
+            if getattr(t, "__name__", None) not in [getattr(x, "__name__", None) for x in allt]:
+                allt.append(t)
+        for t in allt:
             try:
                 info = t(self)
                 if info:
